@@ -2,7 +2,7 @@
 the evidence 'rule' text, crash policy (DESIGN.md section 3.3) and reach requirements."""
 
 BOTH = [dict(variant="asan"), dict(variant="rel")]
-VALGRIND = ["valgrind", "-q", "--error-exitcode=43", "--exit-on-first-error=yes", "--undef-value-errors=no", "--leak-check=no", "--num-callers=20"]
+VALGRIND = ["valgrind", "-q", "--vgdb=no", "--error-exitcode=43", "--exit-on-first-error=yes", "--undef-value-errors=no", "--leak-check=no", "--num-callers=20"]
 
 
 def with_memcheck(tier, quick_subset, thorough_subset, nsh=64):
